@@ -100,7 +100,7 @@ fn label_regions(doc: &Doc) -> Vec<usize> {
         for b in v {
             match b {
                 Block::P(_, i) | Block::Inl(i) | Block::H(_, _, i) => inl(i, w, region),
-                Block::Div(_, k) | Block::Quote(_, k) => blk(k, w, region),
+                Block::Div(_, k) | Block::Quote(_, k) | Block::Wrap(_, _, k) => blk(k, w, region),
                 Block::Ul(_, it) | Block::Ol(_, _, it) => it.iter().for_each(|x| blk(&x.kids, w, region)),
                 Block::Dl(_, it) => it.iter().for_each(|x| blk(&x.kids, w, region)),
                 Block::Pre(..) => w.regions.push(region),
